@@ -20,17 +20,17 @@ PROPS = {
     "C01": [round4.rec_size, round4.lazy_negative_index, codecs.f5_triplets, otl.coverage_ranges, otl.f26_api_conform, otl.f3_schema_wf, otl.f2_conv_pair, tables.f1_fmt_pair, tables.f1_letters] + tables.C01_EXTRA + [safety.f18_fallback, determinism.lazy_independence, determinism.local_state_cow, codecs.f5_offsize, container.f10_dep_order, tables.glyf_component, tables.composite_walkers, codecs.f5_halved_offsets, tables.hmtx_trimming, tables.glyf_delta_codec, tables.cmap_group_codec, tables.cmap14_default_runs] + _generic(("ttLib/tables/", "ttLib/ttFont.py", "ttLib/sfnt.py", "cffLib/__init__.py")),
     "C02": [round4.rec_size, container.f10_dep_order, otl.coverage_ranges, tables.spec_layouts, tables.f1_fmt_pair, tables.f1_letters, otl.f2_conv_pair, otl.f3_schema_wf, codecs.f5_points, codecs.f5_deltas, codecs.f5_device, codecs.f5_halved_offsets] + tables.C02_EXTRA + _generic(("ttLib/tables/", "cffLib/__init__.py")),
     "C03": xmlvocab.ALL + [round4.opt_default, round4.tagid_pad, round4.tagid_discriminator, codecs.ttprogram_push, design.filename_rules, tables.glyf_component, codecs.tag_ident, codecs.f22_fixed_tools, otl.f2_conv_pair, tables.pair_exhaustive] + _generic(("ttLib/tables/", "cffLib/__init__.py", "misc/xmlWriter.py", "misc/xmlReader.py", "ttLib/ttFont.py", "ttx.py")),
-    "C04": [round4.head_patch_guard, round4.head_raw_reads, tables.hmtx_trimming, tables.spec_layouts, container.f10_dep_order, container.container_constants, container.alignment, container.directory_and_checksums, container.f22_recalc_twins, container.checksum_twins, container.woff2_close_order, codecs.f5_triplets, codecs.f5_halved_offsets, tables.woff_discriminator, consistency.unpack_order] + _generic(("ttLib/sfnt.py", "ttLib/woff2.py", "ttLib/ttFont.py", "ttLib/ttCollection.py")),
-    "C06": otl.C06 + [consistency.numbered_twins] + _generic(("ttLib/tables/otTables.py", "ttLib/tables/otBase.py", "otlLib/")),
+    "C04": [round4.head_patch_guard, round4.head_raw_reads, tables.hmtx_trimming, tables.spec_layouts, container.f10_dep_order, container.container_constants, container.alignment, container.directory_and_checksums, container.f22_recalc_twins, container.checksum_twins, container.woff2_close_order, container.woff_block_offsets, codecs.f5_triplets, codecs.f5_halved_offsets, tables.woff_discriminator, consistency.unpack_order] + _generic(("ttLib/sfnt.py", "ttLib/woff2.py", "ttLib/ttFont.py", "ttLib/ttCollection.py")),
+    "C06": otl.C06 + [consistency.numbered_twins, tables.prewrite_sorts] + _generic(("ttLib/tables/otTables.py", "ttLib/tables/otBase.py", "otlLib/")),
     "C07": exhaust.ALL_C07 + [cff.width_bottom, round4.mark_siblings, codecs.f5_rebias, merge.subset_context_helper, tables.composite_walkers, exhaust.c07_index_remap, exhaust.c07_closure_registry, consistency.key_fields, _scoped(fea.argswap_scope, scope=("subset/",), rule="F21"), _scoped(exhaust.f19_varidx, scope=("subset/",), rule="F19"), _scoped(determinism.f12_set_order, scope=("subset/",), rule="F12-subset")] + _generic(("subset/",)),
     "C08": exhaust.ALL_C08 + [design.transparent_flatten, exhaust.c08_distance_carry, consistency.key_fields, _scoped(fea.argswap_scope, scope=("varLib/instancer/",), rule="F21"), _scoped(exhaust.f19_varidx, scope=("varLib/instancer/",), rule="F19"), _scoped(determinism.f12_set_order, scope=("varLib/instancer/",), rule="F12-instancer")] + _generic(("varLib/instancer/", "varLib/mutator.py")),
     "C10": design.C10 + [_scoped(fea.argswap_scope, scope=("varLib/__init__.py", "varLib/merger.py", "varLib/cff.py", "varLib/models.py", "varLib/varStore.py"), rule="F21"), _scoped(exhaust.f19_varidx, scope=("varLib/__init__.py", "varLib/merger.py", "varLib/cff.py", "varLib/varStore.py", "varLib/featureVars.py"), rule="F19"), _scoped(determinism.f12_set_order, scope=("varLib/__init__.py", "varLib/merger.py", "varLib/models.py", "varLib/cff.py", "varLib/featureVars.py", "varLib/varStore.py", "varLib/builder.py", "varLib/stat.py", "varLib/avar/"), rule="F12-varlib")] + _generic(("varLib/__init__.py", "varLib/merger.py", "varLib/models.py", "varLib/cff.py", "varLib/featureVars.py", "varLib/varStore.py", "varLib/builder.py", "ttLib/tables/_g_l_y_f.py", "ttLib/tables/_g_v_a_r.py")),
     "C11": fea.ALL + [otl.coverage_ranges, _scoped(exhaust.f19_varidx, scope=("feaLib/",), rule="F19"), _scoped(determinism.f12_set_order, scope=("feaLib/", "otlLib/"), rule="F12-fea")] + _generic(("feaLib/", "otlLib/")),
     "C12": cff.ALL + [codecs.f6_tables, codecs.f5_ps_operands, codecs.f5_subr_bias, codecs.f5_rebias, codecs.f5_offsize] + _generic(("cffLib/", "misc/psCharStrings.py")),
-    "C13": curves.ALL + [round4.seg_total, _scoped(consistency.clones, prop="C13")] + _generic(("cu2qu/", "qu2cu/", "pens/")),
+    "C13": curves.ALL + [pens.filter_state, round4.seg_total, _scoped(consistency.clones, prop="C13")] + _generic(("cu2qu/", "qu2cu/", "pens/")),
     "C14": pens.ALL + [round4.pen_current_point] + _generic(("pens/",)),
     "C15": codecs.ALL + [round4.tagid_pad, round4.tagid_discriminator] + _generic(("misc/psCharStrings.py", "ttLib/woff2.py", "ttLib/tables/TupleVariation.py", "ttLib/tables/otConverters.py", "ttLib/tables/ttProgram.py", "misc/fixedTools.py", "misc/eexec.py", "misc/sstruct.py")),
-    "C16": determinism.ALL + [consistency.save_restore, round4.dict_alias, round4.conv_sorted] + _generic(("ttLib/", "misc/timeTools.py")),
+    "C16": determinism.ALL + [container.f10_dep_order, consistency.save_restore, round4.dict_alias, round4.conv_sorted] + _generic(("ttLib/", "misc/timeTools.py")),
     "C17": exhaust.ALL_C17 + [round4.reorder_null_guard, round4.reorder_gid_structs] + _generic(("ttLib/reorderGlyphs.py", "ttLib/scaleUpem.py")),
     "C18": merge.ALL + [_scoped(determinism.f12_set_order, scope=("merge/",), rule="F12-merge")] + _generic(("merge/",)),
     "C19": design.C19 + [round4.kerning_sides, round4.uniq_pool, _scoped(consistency.clones, prop="C19")] + _generic(("designspaceLib/", "ufoLib/")),
